@@ -28,9 +28,10 @@ CLAIM = {
             "initializer once and respects the transitive closure of column / value (source, every modifier, "
             "pipelines as sources) / stream requirements; duplicates and every cycle are refused, acyclic accepted "
             "registrations are never refused, refusal is invariant under node renaming, unmet requirements change nothing "
-            "(20 theorems, closed). The real "
+            "a refused request is inert and every repeated request gets the first answer (22 theorems, closed). The real "
             "ResourceManager graph (same initializer groups and - by a reachability function proved exact - the same "
-            "must-precede relation among them), refusals (also in the reversed supply order) and the ACTUAL initializer "
+            "must-precede relation among them), refusals (also in the reversed supply order, and persistent and inert when the order is requested "
+            "again through iteration, sorted_nodes, the simulant creator, initialize_simulants) and the ACTUAL initializer "
             "call orders of random programs built through every public declaration API agree with the model and pass "
             "the verified order checker.",
     "note": "Trusted: the hand transcription of resource.py / population/manager.py / values.py / randomness/manager.py "
@@ -386,6 +387,8 @@ def _classes():
 
         def setup(self, builder):
             self.creator = builder.population.get_simulant_creator()
+            self.resources = builder.resources          # public ResourceInterface: iterating it asks for the order
+            self.state = builder.lifecycle.current_state()
 
         def on_time_step(self, event):
             self.birth()
@@ -671,7 +674,8 @@ def canonical(case):
                 pid += 1
             calls.append(call)
         comps.append({"name": comp["name"], "calls": calls, "auto": comp.get("auto"), "pos": bool(comp.get("pos"))})
-    return {"kc": list(case.get("kc", [])), "comps": comps, "mode": case.get("mode", "?"), "rev": bool(case.get("rev"))}
+    return {"kc": list(case.get("kc", [])), "comps": comps, "mode": case.get("mode", "?"), "rev": bool(case.get("rev")),
+            "plan": int(case.get("plan", 0))}
 
 
 def with_fun_ids(decls, owners, ids, names=None):
@@ -710,15 +714,56 @@ def run_graph(case):
     boot.reset_contexts()
     err, stage, sim = None, None, None
     creations = []
+    plan = random.Random(case.get("plan", 0))
+    requests, mgr, rows_left = [], None, 0
+
+    def producer_name(p):
+        nm = getattr(p, "__name__", "")
+        return nm[5:] if nm.startswith("init_") else getattr(getattr(p, "__self__", None), "name", repr(p))
+
+    def n_log_before_creation():
+        return 0
+
+    def ask(when, entry):
+        """one more request for the order through a public entry point; never lets the answer escape"""
+        before = len(run["log"])
+        try:
+            if entry == "iter":
+                out = ["order", [producer_name(p) for p in comps[-1].resources]]
+            elif entry == "sorted":
+                if mgr is None:
+                    return
+                out = ["order", [producer_name(g.producer) for g in mgr.sorted_nodes if g.type in ("column", "null")]]
+            elif entry == "graph":
+                if mgr is None:
+                    return
+                out = ["graph", len(list(mgr.graph.nodes))]
+            elif entry == "creator":
+                out = ["created", [int(i) for i in comps[-1].creator(1, None)]]
+            elif entry == "init":
+                sim.initialize_simulants()
+                out = ["created", "initial population"]
+            elif entry == "setup":
+                sim.setup()
+                out = ["set up", None]
+            else:
+                raise ValueError(entry)
+        except Exception as e:      # noqa: BLE001 - the answer is the observation
+            out = ["refused", type(e).__name__, classify(e)]
+        requests.append([when, entry, out, len(run["log"]) - before])
+
     with AmbientLog(run):
         try:
             sim = SimulationContext(components=comps, configuration=config, logging_verbosity=0)
             boot.quiet_logging()
             stage = "setup"
             sim.setup()
+            mgr = resource_manager(sim, comps)
+            for entry in plan.choices(["iter", "sorted", "graph"], k=plan.choice([0, 0, 1, 2, 3])):
+                ask("before creation", entry)             # e.g. InteractiveContext.print_initializer_order
             stage = "creation"
             sim.initialize_simulants()
-            creations.append((list(range(CONFIG["population"]["population_size"])), run["log"][:]))
+            creations.append((list(range(CONFIG["population"]["population_size"])), run["log"][n_log_before_creation():]))
             stage = "step"
             n0 = CONFIG["population"]["population_size"]
             for k in BIRTHS:
@@ -726,11 +771,35 @@ def run_graph(case):
                     comps[-1].birth()      # results gathering would read the probes' undeclared data: births without stepping
                 else:
                     sim.step()
+                ask("after a birth", plan.choice(["iter", "sorted"]))
             for j, k in enumerate(BIRTHS):
                 a, b = run["marks"][2 * j], run["marks"][2 * j + 1]
                 creations.append((run["born"][j], run["log"][a:b]))
+            for entry in ("iter", "sorted", "graph"):
+                ask("after the births", entry)
         except Exception as e:                 # noqa: BLE001 - the error class is the observation
             err = e
+        log_at_refusal = len(run["log"])
+        try:
+            state_at_refusal = comps[-1].state()
+        except Exception:          # noqa: BLE001 - setup did not get as far as the last component
+            state_at_refusal = None
+        # CANDIDATE FINDING (reported for triage, not failed): a refusal raised while `post_setup` is emitted (a raw
+        # `value.<v>` registration clashing with a pipeline) leaves the life cycle in post_setup, so a later
+        # initialize_simulants() is accepted and runs the initializers on the half-registered resources.
+        late_refusal = err is not None and stage == "setup" and state_at_refusal == "post_setup"
+        # ---- a refusal must be persistent and inert: ask again through every public entry point that needs the order ----
+        if err is not None and stage in ("setup", "creation"):
+            if stage == "setup":
+                retries = ["init", "setup", "init"]
+            else:
+                retries = plan.choices(["iter", "sorted", "graph", "creator", "init", "iter", "creator"], k=plan.choice([3, 4, 5, 6]))
+            for entry in retries:
+                ask("after the refusal", entry)
+            try:
+                rows_left = len(sim.get_population(True)) if sim is not None else 0
+            except Exception:      # noqa: BLE001
+                rows_left = None
     code = classify(err) if err is not None else 0
     decls = with_fun_ids(raw_decls, owners, ids, run["modnames"])
     # ---- direct oracle ----
@@ -744,7 +813,7 @@ def run_graph(case):
             ok, msg = False, f"unexpected {type(err).__name__} during {stage}: {err}"
         elif reason is None:
             ok, msg = False, f"refused ({type(err).__name__}: {str(err)[:120]}) although there is neither a duplicate producer nor a cycle"
-        if run["log"] and stage != "step":
+        if log_at_refusal and stage != "step":
             ok, msg = False, f"refused, yet initializers had already been called: {run['log'][:4]}"
     else:
         if reason is not None:
@@ -766,6 +835,30 @@ def run_graph(case):
                     for a in anc.get(who, []):
                         if a != who and pos[a] > pos[who]:
                             ok, msg = False, f"initializer {who} ran before {a}, which it (transitively) requires"
+    # ---- repeated requests: a refusal is persistent and inert, an accepted order is always the same order ----
+    for when, entry, out, ran in requests:
+        if not ok:
+            break
+        if err is not None:
+            if late_refusal:
+                break
+            if ran or run["log"]:
+                ok, msg = False, f"refused, yet a later request ({entry}, {when}) ran initializers: {run['log'][:4]}"
+            elif entry == "graph":
+                continue
+            elif out[0] != "refused":
+                ok, msg = False, (f"the simulation refused ({type(err).__name__}), but asking again through `{entry}` ({when}) "
+                                  f"was answered: {out}")
+            elif stage == "creation" and entry in ("iter", "sorted", "creator") and out[2] != code:
+                ok, msg = False, f"refusal changed its class when asked again through `{entry}` ({when}): {out[1]} after {type(err).__name__}"
+        else:
+            if ran and entry in ("iter", "sorted", "graph"):
+                ok, msg = False, f"asking for the order through `{entry}` ({when}) ran initializers"
+            elif out[0] == "refused":
+                ok, msg = False, f"accepted, yet asking for the order through `{entry}` ({when}) raised {out[1]}"
+            elif out[0] == "order" and creations and out[1] != [c[0] for c in creations[0][1]]:
+                ok, msg = False, (f"the order answered through `{entry}` ({when}) {out[1]} is not the order the initializers "
+                                  f"were called in {[c[0] for c in creations[0][1]]}")
     # ---- whatever order the components were supplied in: refusal parity in the reversed supply order ----
     rev_outcome = None
     if case.get("rev") and ok:
@@ -809,6 +902,9 @@ def run_graph(case):
     graph_seen = True
     if rev_outcome is not None:
         obs["reversed_supply_order"] = rev_outcome
+    obs["requests"] = [[w, e, o[:2]] for w, e, o, _ in requests][:12]
+    if err is not None:
+        obs["population_rows_after_refusal"] = rows_left
     if err is not None:
         ob = f"(ObsErr {cz(code)})"
     else:
@@ -846,7 +942,10 @@ def run_graph(case):
     tags = (f"mode_{case['mode']}", f"outcome_{'ok' if code == 0 else 'err' + str(code)}",
             f"comps_{'0' if n == 0 else '1-3' if n <= 3 else '4-6' if n <= 6 else '7+'}",
             f"decls_{min(len(decls) // 10 * 10, 40)}+") + (() if graph_seen else ("graph_unobservable",)) + \
-        (("second_supply_order",) if case.get("rev") else ()) + tuple(sorted({f"decl_{d[0]}" for d in decls})) + \
+        (("second_supply_order",) if case.get("rev") else ()) + tuple(sorted({f"asked_{e}_{w.replace(' ', '_')}" for w, e, _, _ in requests})) + \
+        (("refusal_left_population_rows",) if err is not None and rows_left else ()) + \
+        (("candidate_finding_refusal_at_post_setup_bypassed",) if late_refusal and any(
+            e == "init" and o[0] != "refused" for _, e, o, _ in requests) else ()) + tuple(sorted({f"decl_{d[0]}" for d in decls})) + \
         tuple(sorted({f"call_{c[0]}" for comp in case["comps"] for c in comp["calls"]}
                      | {f"flavour_{c[-1]}" for comp in case["comps"] for c in comp["calls"]
                         if c[0] in ("producer", "rate_producer", "modifier", "step_modifier") and isinstance(c[-1], str)
@@ -984,6 +1083,7 @@ def gen_program(rng, max_comps=8):
         c = chain_case(entry, rng.choice(KEYWORD_SETS), rng.random() < 0.5, rng.randint(1, 4), rng.choice(flavours_for(entry)))
         rng.shuffle(c["comps"])
         c["rev"] = rng.random() < 0.2
+        c["plan"] = rng.randrange(10 ** 6)
         return c
     P = Prog(rng, max_comps)
     step_at = rng.randint(1, 6) if rng.random() < 0.3 else -1
@@ -1053,7 +1153,7 @@ def gen_program(rng, max_comps=8):
             rng.shuffle(c["calls"])
     order = list(comps.values())
     rng.shuffle(order)
-    return {"kc": P.kc, "comps": order, "mode": mode, "rev": rng.random() < 0.2}
+    return {"kc": P.kc, "comps": order, "mode": mode, "rev": rng.random() < 0.2, "plan": rng.randrange(10 ** 6)}
 
 
 def plant_cycle(P, rng):
@@ -1294,6 +1394,13 @@ def corpus():
                                     comp("p2", auto=[["c2"], [], [], []])], "mode": "corpus_results"})
     out.append({"kc": [], "comps": [comp("p1", [["step_modifier", ["c1"], [], []]], auto=[["c1"], [], ["simulant_step_size"], []])],
                 "mode": "corpus_cycle"})
+    # a cycle beside initializers that are NOT on it (a partial order exists), asked again in many ways
+    for plan_ in range(1, 9):
+        out.append({"kc": [], "comps": [comp("p1", auto=[["c1"], ["c2"], [], []]), comp("p2", auto=[["c2"], ["c1"], [], []]),
+                                        comp("p3", auto=[["c3"], [], [], []]), comp("p4", auto=[["c4"], ["c3"], [], []])],
+                    "mode": "corpus_retry", "plan": plan_})
+    for k, c in enumerate(out):
+        c.setdefault("plan", 1000 + k)
     return out
 
 
@@ -1329,6 +1436,8 @@ def shrink_graph(case):
             c = copy.deepcopy(case); c["comps"][i]["pos"] = False; yield c
     if case.get("rev"):
         c = copy.deepcopy(case); c["rev"] = False; yield c
+    if case.get("plan"):
+        c = copy.deepcopy(case); c["plan"] = 0; yield c
 
 
 def streams(tier):
